@@ -96,6 +96,10 @@ def explore(chk, rnd, tier):
         un = rnd.choice(["UNION", "UNION ALL"])
         sql = rnd.choice([
             "WITH c AS (%s) SELECT id FROM c %s SELECT id FROM u" % (s1, un),
+            # a CTE named after the very table it reads (rejected as a self reference, or allowed: the caller's table stays as it was)
+            "WITH t AS (%s) SELECT id FROM t" % s1,
+            "WITH u AS (%s) SELECT id FROM u %s SELECT id FROM t" % (s2, un),
+            "SELECT x.id AS id FROM (WITH t AS (%s) SELECT * FROM t) x" % s1,
             "WITH c AS (%s) SELECT id FROM c %s SELECT id FROM c" % (s1, un),
             "WITH c AS (%s), d AS (%s) SELECT id FROM c %s SELECT id FROM d" % (s1, s2, un),
             "SELECT x.id AS id FROM (WITH a AS (%s) SELECT * FROM a) x JOIN (WITH b AS (%s) SELECT * FROM b) y ON x.id = y.id" % (s1, s2),
